@@ -1842,12 +1842,13 @@ pub fn c10(tier: &str, flavor: Flavor) -> Spec {
         for buf in [1usize, 8] {
             let cfg = Cfg { buffer_size: buf, ..Cfg::default() };
             let small = threads.len() == 2 && threads.iter().all(|t| t.len() == 1);
+            // (quick tier: the full bound with the one-slot buffer, one less with the roomy one)
             let b: &[usize] = if small {
-                if quick { &[2] } else { &[3] }
+                if quick { if buf == 1 { &[2] } else { &[1] } } else { &[3] }
             } else if threads.len() > 2 {
                 if quick { &[0] } else { &[1] }
             } else if quick {
-                &[1]
+                if buf == 1 { &[1] } else { &[0] }
             } else {
                 &[2]
             };
